@@ -73,6 +73,40 @@ CLAIMED = {
         design='DESIGN.md section 5, C19',
         note='Trusted: CPython subprocess.call kills and reaps the child when the timeout expires. Not decided: '
              'grandchildren of shell commands, wall-clock bounds.'),
+    'C06': dict(
+        technique='abstract evaluation of the grammar tables; path-sensitive abstract interpretation of the '
+                  'precedence-climbing parser against every bounded sequence of token-stream answers, compared with a '
+                  'reference reading; fold-shape analysis of the combinators on explicit operand lists; constructor-'
+                  'chain and who-may-construct checks',
+        text='The standard grammar is evaluated from new_grammar: levels in order of increasing precedence are || then '
+             '&&, prefix !; each operator is chained to the primitive combinator of that meaning with operands in '
+             'order; only the known sites construct a Grammar and the five matcher types use the standard one. The '
+             'infix parser is interpreted abstractly for every sequence of answers of the token stream (is the next '
+             'token one of these operators?) up to a bound, in both layout modes: the operators asked for, the '
+             'must-be-on-current-line flag of every question and primitive, and the expression tree built must equal '
+             'the documented reading (left associative runs, operands from the strictly higher levels, line breaks '
+             'free exactly inside parentheses); parentheses / prefix operator / plain primitive alternatives likewise. '
+             'Conjunction / Disjunction / Negation are evaluated on explicit operand lists: ALL / ANY / NOT, lazily, '
+             'operands applied in constructor order; the sequence transformer is evaluated on every identity pattern '
+             'of up to three operands: left-to-right composition and identity flag. Parser errors are the syntax '
+             'error exception and never caught.',
+        design='DESIGN.md section 5, C06',
+        note='Not decided: token-level layout (spaces), the primitives of each host type, bounded answer sequences '
+             '(one level: 3 runs of 4 operands; two levels: one run of 3 operands).'),
+    'C07': dict(
+        technique='table agreement of phase registration and delivery; per-header typestate of the section switch; '
+                  'path analysis of inclusion (visited-path test before parsing, no write to the including parser\'s '
+                  'phase state, merge by extending the existing list)',
+        text='Each of the six phases is registered with the instruction set of the same phase and delivered in the '
+             'position of the same phase (default phase = act); every header line is tested against the known phases '
+             'before it becomes current and a malformed header is an error; the resolved path of an included file is '
+             'tested against the visited paths before it is parsed and the list handed on contains it; inclusion never '
+             'writes the current-phase state of the including parser and merges by extending the existing list object '
+             '(replacement only when the key is established to be absent); repeated phases reuse their list; the '
+             'element source keeps every line.',
+        design='DESIGN.md section 5, C07',
+        note='Not decided: line-number arithmetic of ParseSource.consume over all documents and comment / blank line '
+             'handling (value level).'),
     'C08': dict(
         technique='executor trace model; path analysis with forked outcomes of the definition / reference validators; '
                   'per-iteration typestate of the transitive restriction check; who-may-mutate the symbol table; '
@@ -85,6 +119,22 @@ CLAIMED = {
              'table is mutated only by validation, the def instruction and the symbol command; the type table is total '
              'over the 13 value types and pairs each with its own parser; lists in strings join every element.',
         design='DESIGN.md section 5, C08'),
+    'C10': dict(
+        technique='argument-plumbing (keyword <-> attribute role table) at the process-start site; abstract evaluation '
+                  'of the command translator and of every accumulate method on explicit component lists; sibling '
+                  'agreement of result translators by decision tables over exit codes; writer/reader file agreement',
+        text='subprocess.call gets argv, stdin, stdout, stderr, env, timeout and the shell flag from the attribute of '
+             'that role and no cwd (the child inherits the test\'s current directory); the command translator gives one '
+             'string for shell commands and [program] + arguments in order otherwise, total over the driver classes; '
+             'every new_accumulated / new_with_additional_arguments keeps what a program already has before what is '
+             'added (arguments, stdin, transformations), through symbol references, parsing and resolution; the stdin '
+             'of the action to check is the program\'s stdin parts followed by the [setup] stdin; the exit code and the '
+             'output files are written to the files of the result directory that the exit-code / stdout / stderr '
+             'assertions read; every result translator agrees between its assertion and non-assertion forms, a '
+             'non-zero exit code is FAIL in [assert] and HARD_ERROR elsewhere, -ignore-exit-code selects a translator '
+             'that is successful for every exit code.',
+        design='DESIGN.md section 5, C10',
+        note='Not decided: the argument vector denoted by arbitrary program syntax, the bytes the child receives.'),
     'C11': dict(
         technique='executor trace model (object identity of the settings across main steps); typestate of the '
                   'environment generators (age of the timeout read vs. loop iteration); typestate of the env appliers; '
